@@ -130,16 +130,46 @@ func (g *c17Hm) forSk(d int) string {
 	return "O," + g.leaf(3, 0, 10, 11) + "," + g.leaf(7, 8) + "," + next
 }
 
+// small contexts: the machine's heap is a chain of closures in the Lean model (one layer per store and per scheduling
+// point), so the cost of a case grows with the SQUARE of its number of steps – arrays of at most 4 elements and
+// nesting of at most 4 helpers keep a case in the milliseconds
+func (g *c17Hm) context() ([]string, []string) {
+	r := g.r
+	words := []string{"a", "b", "ab", "", "x y", "é", "10", "-3", "k", " "}
+	list := func() string {
+		n := r.Intn(5)
+		parts := make([]string, n)
+		for i := range parts {
+			parts[i] = Pick(r, words)
+		}
+		return strings.Join(parts, "\x00")
+	}
+	elems := []string{list(), Pick(r, words), Pick(r, []string{"0", "1", "2", "-1"})}
+	if r.Chance(1, 8) {
+		elems = elems[:r.Intn(3)]
+	}
+	keys := []string{}
+	if r.Chance(7, 8) {
+		keys = append(keys, "k", Pick(r, words))
+	}
+	if r.Chance(7, 8) {
+		keys = append(keys, "arr", list())
+	}
+	if r.Chance(3, 4) {
+		keys = append(keys, "d", Pick(r, []string{"-", ",", "", "é"}))
+	}
+	return elems, keys
+}
+
 func c17HeapGenCases(r *Rand, tier string) []string {
-	n := 200
+	n := 150
 	if tier == "thorough" {
-		n = 4000
+		n = 1500
 	}
 	g := &c17Hm{r: r}
-	cg := &c17Gen{r: r}
 	var out []string
 	for i := 0; i < n; i++ {
-		d := r.Range(1, 4)
+		d := r.Range(1, 3)
 		var sk string
 		switch r.Intn(5) {
 		case 0:
@@ -156,7 +186,11 @@ func c17HeapGenCases(r *Rand, tier string) []string {
 		if strings.HasPrefix(sk, "S") { // a bare leaf is not a statement (its quotes would be literal text at top level)
 			sk = "L," + sk
 		}
-		elems, keys := cg.context()
+		if strings.Count(sk, "M")+strings.Count(sk, "F")+strings.Count(sk, "R")+strings.Count(sk, "O") > 5 {
+			i--
+			continue
+		}
+		elems, keys := g.context()
 		line := ExprCase(r.Bool(), "x", elems, keys) // "expr <opt> <tmpl> <elems> <keys>"
 		f := strings.Fields(line)
 		out = append(out, fmt.Sprintf("heapm %d %s %s %s %s", Pick(r, []int{0, 0, 1, 2, 5}), f[1], sk, f[3], f[4]))
